@@ -16,6 +16,7 @@ import (
 	"sync"
 	"sync/atomic"
 	"syscall"
+	"time"
 
 	"verifharness/sx"
 
@@ -56,9 +57,16 @@ type simKernel struct {
 	sends    []wire
 	closes   int32
 	receives int
+	slow     time.Duration // Send and Close take this long: overlapping Close calls really overlap
+	mu       sync.Mutex
 }
 
 func (k *simKernel) Send(msg syscall.NetlinkMessage) (uint32, error) {
+	if k.slow > 0 {
+		time.Sleep(k.slow)
+		k.mu.Lock()
+		defer k.mu.Unlock()
+	}
 	k.seq++
 	k.sends = append(k.sends, wire{msg.Header.Type, msg.Header.Flags, k.seq, append([]byte(nil), msg.Data...)})
 	if k.fpos < len(k.faults) {
@@ -94,7 +102,13 @@ func (k *simKernel) Receive(nonBlocking bool, p libaudit.NetlinkParser) ([]sysca
 	return p(k.buf[:n])
 }
 
-func (k *simKernel) Close() error { atomic.AddInt32(&k.closes, 1); return nil }
+func (k *simKernel) Close() error {
+	if k.slow > 0 {
+		time.Sleep(k.slow)
+	}
+	atomic.AddInt32(&k.closes, 1)
+	return nil
+}
 
 func z(n int) string {
 	if n < 0 {
@@ -512,6 +526,11 @@ func closeStorm(seed uint64, idx int) (string, map[string]interface{}, string, b
 		c.SetPID(libaudit.NoWait)
 	}
 	n := 4 + r.Intn(12)
+	if r.Chance(1, 2) {
+		// a socket whose Send and Close take a while: the second Close starts while the first is still inside them
+		k.slow = 15 * time.Millisecond
+		n = 3 + r.Intn(3)
+	}
 	var wg sync.WaitGroup
 	gate := make(chan struct{})
 	for i := 0; i < n; i++ {
